@@ -65,7 +65,7 @@ DevFor(s, e, why) ==
     [] why = "G5.boot before the previous generation is down" /\ s.ph = "stopped" /\ AllMods(s, "down")
               /\ s.hooks = 0 /\ RestartWanted(s) -> Dev_NoHook(s, e)
     [] why = "exc.run() raises" /\ e.exc \in {"KeyboardInterrupt", "RuntimeError", "AttributeError"}
-              /\ (\E x \in s.reqGen : x[1] = "sig")
+              /\ (\E x \in s.reqGen : x[1] = "sig") /\ s.ph \in {"init", "boot", "ready"}
               -> Dev_InterruptedStartup(s, e)
     [] OTHER -> {Fail(s, why)}
 
